@@ -383,6 +383,67 @@ def r_delay(E):
     rel, fn = pm.find_function(JOB, "JobBase.compute_hourly_occurrences_for_usage_pattern")
     res.instances += 1
     outer = next((n for n in ast.walk(fn) if isinstance(n, ast.For) and norm(n.iter).endswith(".uj_steps")), None)
+    counted = False
+    if outer is None:
+        # the steps wrapped one by one into small records / tuples first: `pairs = [Rec(step, f(step)) for step in
+        # ….uj_steps]; for p in pairs: … p.field …` reads as the loop over the steps with each `p.field` replaced by the
+        # expression the record was built with
+        from ..astutil import fully_expanded as _fx3, substitute_stmt as _sst, set_parents as _sp, clone as _cl
+        for loop in [n for n in ast.walk(fn) if isinstance(n, ast.For) and isinstance(n.target, ast.Name)]:
+            it = _fx3(loop.iter, fn)
+            if not (isinstance(it, ast.ListComp) and len(it.generators) == 1 and not it.generators[0].ifs
+                    and norm(it.generators[0].iter).endswith(".uj_steps") and isinstance(it.generators[0].target, ast.Name)
+                    and isinstance(it.elt, ast.Call) and isinstance(it.elt.func, ast.Name)):
+                continue
+            names = None
+            for m_, (r_, t_, _s) in pm.modules.items():
+                for st in t_.body:
+                    if isinstance(st, ast.Assign) and isinstance(st.targets[0], ast.Name) and st.targets[0].id == it.elt.func.id \
+                            and isinstance(st.value, ast.Call) and "namedtuple" in norm(st.value.func) and len(st.value.args) >= 2:
+                        spec = st.value.args[1]
+                        names = [x.value for x in spec.elts] if isinstance(spec, (ast.List, ast.Tuple)) else \
+                            str(getattr(spec, "value", "")).replace(",", " ").split()
+                    if isinstance(st, ast.ClassDef) and st.name == it.elt.func.id and any("dataclass" in norm(d) for d in st.decorator_list):
+                        names = [b.target.id for b in st.body if isinstance(b, ast.AnnAssign) and isinstance(b.target, ast.Name)]
+            if not names or len(names) < len(it.elt.args):
+                continue
+            stepv = it.generators[0].target.id
+            fields = dict(zip(names, it.elt.args))
+            for k in it.elt.keywords:
+                fields[k.arg] = k.value
+
+            class _F(ast.NodeTransformer):
+                def visit_Attribute(self, node):
+                    self.generic_visit(node)
+                    if isinstance(node.value, ast.Name) and node.value.id == loop.target.id and node.attr in fields:
+                        return ast.copy_location(_cl(fields[node.attr]), node)
+                    return node
+            view = _cl(loop)
+            view.body = [_F().visit(b) for b in view.body]
+            view.iter = _cl(it.generators[0].iter)
+            view.target = ast.Name(id=stepv, ctx=ast.Store())
+            for x in ast.walk(view):
+                for ch in ast.iter_child_nodes(x):
+                    ch._parent = x
+            view._parent = getattr(loop, "_parent", None)
+            outer = view
+            break
+    if outer is not None:
+        # "once per job of the step that is this job", spelled as a count: range(len([j for j in step.jobs if j == self]))
+        # or range(step.jobs.count(self))
+        stepn = norm(outer.target)
+        for s_ in outer.body:
+            if isinstance(s_, ast.For) and isinstance(s_.iter, ast.Call) and norm(s_.iter.func) == "range" and len(s_.iter.args) == 1:
+                a = s_.iter.args[0]
+                via_count = isinstance(a, ast.Call) and norm(a.func) == f"{stepn}.jobs.count" and [norm(x) for x in a.args] == ["self"]
+                via_len = False
+                if isinstance(a, ast.Call) and norm(a.func) == "len" and a.args and isinstance(a.args[0], (ast.ListComp, ast.GeneratorExp)):
+                    g = a.args[0].generators
+                    via_len = len(g) == 1 and norm(g[0].iter) == f"{stepn}.jobs" and len(g[0].ifs) == 1 and \
+                        isinstance(g[0].ifs[0], ast.Compare) and isinstance(g[0].ifs[0].ops[0], ast.Eq) and \
+                        {norm(g[0].ifs[0].left), norm(g[0].ifs[0].comparators[0])} == {norm(g[0].target), "self"}
+                if via_count or via_len:
+                    counted = s_
     if outer is None:
         # the steps must be enumerated from the list link itself (order and multiplicity): a loop whose step variable
         # comes out of a dict / set keyed by the step visits a step listed twice only once
@@ -408,10 +469,79 @@ def r_delay(E):
                     f"uj_steps list: a step listed twice in the journey is visited once, with the delay of its last "
                     f"position — its jobs' occurrences are under-counted", rel, loop.lineno, fn.name))
                 return res
+        # the same enumeration written with itertools: the steps zipped with the running total of the time spent in
+        # the steps *before* each of them — accumulate(<step.user_time_spent for step in the same steps>, initial=<empty>)
+        # — and the job placed once per matching job of the step, shifted by that running total
+        from ..astutil import fully_expanded as _fxd
+        for z in [n for n in ast.walk(fn) if isinstance(n, ast.Call) and isinstance(n.func, ast.Name) and n.func.id == "zip"
+                  and len(n.args) == 2]:
+            steps, delays = _fxd(z.args[0], fn), _fxd(z.args[1], fn)
+            if not norm(steps).endswith(".uj_steps"):
+                continue
+            if not (isinstance(delays, ast.Call) and isinstance(delays.func, ast.Name) and delays.func.id == "accumulate"
+                    and delays.args):
+                continue
+            res.instances += 1
+            src = delays.args[0]
+            init = next((k.value for k in delays.keywords if k.arg == "initial"), None)
+            opf = delays.args[1] if len(delays.args) > 1 else next((k.value for k in delays.keywords if k.arg == "func"), None)
+            gens = src.generators if isinstance(src, (ast.GeneratorExp, ast.ListComp)) else None
+            from_same_steps = gens is not None and len(gens) == 1 and not gens[0].ifs and \
+                norm(_fxd(gens[0].iter, fn)).split("[")[0] == norm(steps) and isinstance(gens[0].target, ast.Name) and \
+                norm(src.elt) == f"{gens[0].target.id}.user_time_spent"
+            if isinstance(src, ast.Call) and isinstance(src.func, ast.Name) and src.func.id == "map" and len(src.args) == 2:
+                from_same_steps = norm(_fxd(src.args[1], fn)) == norm(steps) and "user_time_spent" in norm(src.args[0])
+            if not from_same_steps or (opf is not None and norm(opf) not in ("operator.add", "add")):
+                res.undecided.append("running total of the delays not recognised")
+                return res
+            if init is None or norm(init) != "EmptyExplainableObject()":
+                res.findings.append(Finding(
+                    "R-DELAY", "delay before placement",
+                    "the delays are the running totals of the steps' durations *including* each step's own "
+                    "(accumulate without initial=<empty>): every occurrence is shifted by its own step as well", rel,
+                    delays.lineno, fn.name))
+            # the comprehension / loop that consumes the pairs
+            holder = getattr(z, "_parent", None)
+            if isinstance(holder, ast.comprehension):
+                comp = getattr(holder, "_parent", None)
+                tgt = holder.target
+                inner = [g for g in comp.generators if g is not holder]
+                elt = comp.elt
+            elif isinstance(holder, ast.For):
+                comp, tgt, inner, elt = holder, holder.target, [], holder
+            else:
+                res.undecided.append("consumer of the (step, delay) pairs not recognised")
+                return res
+            if not (isinstance(tgt, ast.Tuple) and len(tgt.elts) == 2 and all(isinstance(x, ast.Name) for x in tgt.elts)):
+                res.undecided.append("(step, delay) pair not unpacked")
+                return res
+            stepv, delayv = tgt.elts[0].id, tgt.elts[1].id
+            res.instances += 1
+            shifts = [c for c in ast.walk(elt) if isinstance(c, ast.Call) and isinstance(c.func, ast.Attribute)
+                      and c.func.attr == "return_shifted_hourly_quantities"]
+            if len(shifts) != 1 or [norm(a) for a in shifts[0].args] != [delayv] or \
+                    "utc_hourly_usage_journey_starts" not in norm(_fxd(shifts[0].func.value, fn)):
+                res.findings.append(Finding("R-DELAY", "placement", f"an occurrence is not placed at the UTC journey starts "
+                                            f"shifted by the accumulated delay `{delayv}`", rel, z.lineno, fn.name))
+            jobs_gen = next((g for g in inner if norm(g.iter) == f"{stepv}.jobs"), None)
+            if isinstance(holder, ast.For):
+                jl = next((x for x in ast.walk(holder) if isinstance(x, ast.For) and norm(x.iter) == f"{stepv}.jobs"), None)
+                ok_mult = jl is not None and not any(isinstance(x, ast.Break) for x in ast.walk(jl))
+            else:
+                ok_mult = jobs_gen is not None and len(jobs_gen.ifs) == 1 and isinstance(jobs_gen.ifs[0], ast.Compare) \
+                    and isinstance(jobs_gen.ifs[0].ops[0], ast.Eq) \
+                    and {norm(jobs_gen.ifs[0].left), norm(jobs_gen.ifs[0].comparators[0])} == {norm(jobs_gen.target), "self"}
+            if not ok_mult:
+                res.undecided.append("placement per matching job of the step not recognised")
+            res.instances += 1
+            res.floor = 3
+            return res
         res.undecided.append("no loop over uj_steps")
         return res
     step = norm(outer.target)
     inner = next((s for s in outer.body if isinstance(s, ast.For) and norm(s.iter) == f"{step}.jobs"), None)
+    if inner is None and counted:
+        inner = counted
     incs = [s for s in outer.body if isinstance(s, ast.AugAssign) and isinstance(s.op, ast.Add)]
     if inner is None or len(incs) != 1:
         res.undecided.append("step loop shape not recognised")
@@ -440,6 +570,8 @@ def r_delay(E):
                 if isinstance(t, ast.Compare) and len(t.ops) == 1 and isinstance(t.ops[0], want) \
                         and {norm(t.left), norm(t.comparators[0])} == {jv, "self"}:
                     is_self_test = True
+    if len(place) == 1 and counted is inner:
+        is_self_test = True            # the count already selects the jobs of the step that are this job
     if len(place) != 1 or not is_self_test:
         res.undecided.append("placement shape not recognised")
     else:
@@ -789,7 +921,7 @@ def r_accum(E):
                             st.lineno, q))
                     elif len(res.samples) < 6:
                         res.samples.append({"function": q, "accumulator": v, "update": norm(st)[:70]})
-    res.floor = 12
+    res.floor = 5      # accumulation loops left in model code (12 today; sum() / reduce() rewrites remove some)
     return res
 
 
